@@ -75,8 +75,15 @@ func expectDecl(out map[string]*schema_j5pb.RootSchema, pkg, schemaName string, 
 			prefix = Screaming(last) + "_"
 		}
 		e := &schema_j5pb.Enum{Name: schemaName, Description: desc, Prefix: prefix}
-		e.Options = append(e.Options, &schema_j5pb.Enum_Option{Name: "UNSPECIFIED", Number: 0})
-		for i, o := range d.Options {
+		opts := d.Options
+		zero := &schema_j5pb.Enum_Option{Name: "UNSPECIFIED", Number: 0}
+		if len(opts) > 0 && strings.HasSuffix(opts[0].Name, "UNSPECIFIED") {
+			// a first option ending in UNSPECIFIED is the zero option, spelled by the author
+			zero = &schema_j5pb.Enum_Option{Name: strings.TrimPrefix(opts[0].Name, prefix), Number: 0, Description: opts[0].Desc, Info: opts[0].Info}
+			opts = opts[1:]
+		}
+		e.Options = append(e.Options, zero)
+		for i, o := range opts {
 			e.Options = append(e.Options, &schema_j5pb.Enum_Option{Name: o.Name, Number: o.Num(i), Description: o.Desc, Info: o.Info})
 		}
 		for _, inf := range d.Info {
@@ -128,7 +135,7 @@ func expectFieldRS(out map[string]*schema_j5pb.RootSchema, pkg, parent string, f
 	switch t.K {
 	case TString:
 		sf := &schema_j5pb.StringField{}
-		if rs != nil && rs.Family == "string" && (rs.MinLen != nil || rs.MaxLen != nil || rs.Pattern != nil) {
+		if rs != nil && (rs.Family == "string" || rs.Family == "string-format") && (rs.MinLen != nil || rs.MaxLen != nil || rs.Pattern != nil) {
 			sf.Rules = &schema_j5pb.StringField_Rules{MinLength: rs.MinLen, MaxLength: rs.MaxLen, Pattern: rs.Pattern}
 		}
 		if rs != nil && rs.ListSearchable {
